@@ -17,6 +17,11 @@
                                         Windows-1252 and UTF-8 decoding are the identity there)
      - std::path::Path::file_name    -> [file_name_of] below (Unix rules: split at '/', skip empty and
                                         non-leading "." components from the back, ".." / root / leading "." -> None)
+     - Vec<u8> file_data                -> [t_data : list N] grows on demand: `extend_from_slice` always appends the
+                                        whole payload; the capacity ([t_cap], requested with Vec::with_capacity) is only
+                                        read as the keep-data flag `capacity() > 0` and is NEVER a bound on the
+                                        stored data (neither the 512 of the lost-announcement recovery nor the
+                                        MAX_PREALLOC cap of announced transfers limit what can be stored)
    Strings are lists of bytes (N < 256). *)
 From Coq Require Import List NArith Bool.
 From AdltV Require Import Base.Res Base.MachInt.
